@@ -11,6 +11,7 @@
 From Coq Require Import ZArith List Bool Lia Arith.
 Import ListNotations.
 Require Import SV.Life.Model SV.Life.Inv SV.Life.Quiet SV.Life.ProcLemmas SV.Life.InvProofs SV.Life.InvRun.
+Require Import SV.Life.PolicyRun SV.Life.StopRun SV.Life.RpcRun.
 Open Scope Z_scope.
 
 (* the wait effects of a trace (the trace is newest first, so is the result) *)
@@ -119,3 +120,166 @@ Proof.
 Qed.
 
 End WithConfig.
+
+(* ---------- the reap point of a pass *)
+Section Pass.
+Variable U : Z.
+Variable pconfs : list pconf.
+Variable gconfs : list gconf.
+
+Notation kts m := (kt (fun _ => True) m).
+Notation do_pass := (Model.do_pass U pconfs gconfs).
+Notation run := (Model.run U pconfs gconfs).
+Notation reap_all := (Model.reap_all U pconfs).
+
+(* what a pass does before it reaps (poll: clock and script actions; transition of every group) and after *)
+Definition pre_reap (o : passop) : Model.M unit :=
+  bind (modw (set_pass (p_now o) (p_forkq o) (p_killq o))) (fun _ =>
+  bind (mapM_ (Model.do_act U pconfs gconfs) (p_acts o)) (fun _ =>
+  mapM_ (transition_group U pconfs gconfs) (sorted_groups gconfs))).
+Definition post_reap : Model.M unit :=
+  bind handle_signal (fun _ => bind (Model.phase2 gconfs) (fun _ => Model.loop_head U pconfs gconfs)).
+
+Lemma set_pass_kt t fq kq : kts (modw (set_pass t fq kq)).
+Proof.
+  intros w HK [HG HT] _. exists tt, (set_pass t fq kq w). split; [reflexivity|]. split; [|split].
+  - eapply K_inert; [exact HK|]. repeat split; cbn; lia.
+  - eapply G0_obs; [|exact HG]. reflexivity.
+  - exact HT.
+Qed.
+
+Lemma pre_reap_kt o : kts (pre_reap o).
+Proof.
+  unfold pre_reap. apply kt_bind; [apply set_pass_kt | intros _].
+  apply kt_bind; [apply kt_mapM; intros a; apply do_act_kt | intros _].
+  apply kt_mapM. intros g. unfold transition_group. apply kt_mapM. intros i. apply transition_kt.
+Qed.
+
+Lemma post_reap_kt : kts post_reap.
+Proof.
+  unfold post_reap. apply kt_bind; [apply handle_signal_kt | intros _].
+  apply kt_bind; [apply phase2_kt | intros _]. apply loop_head_kt.
+Qed.
+
+Lemma bind_assoc_run {A B C} (m : Model.M A) (f : A -> Model.M B) (g : B -> Model.M C) w :
+  bind (bind m f) g w = bind m (fun a => bind (f a) g) w.
+Proof. unfold bind. destruct (m w) as [[a|] w1]; [|reflexivity]. reflexivity. Qed.
+
+Lemma do_pass_split o w :
+  do_pass o w = bind (pre_reap o) (fun _ => bind reap_all (fun _ => post_reap)) w.
+Proof.
+  unfold Model.do_pass, pre_reap, post_reap. rewrite !bind_assoc_run.
+  unfold bind. destruct (modw _ w) as [[a|] w1]; [|reflexivity].
+  destruct (mapM_ _ _ w1) as [[b|] w2]; reflexivity.
+Qed.
+
+(* Every pass from a world satisfying the invariants: the part before the reap point
+   succeeds, the reaper waits for the first 100 dead children in order of death and
+   touches no live child, the rest of the pass succeeds. *)
+Theorem pass_reap_point o w :
+  K w -> TR w ->
+  exists w1 w2 w3,
+    pre_reap o w = (Some tt, w1) /\ K w1 /\ TR w1 /\
+    reap_all w1 = (Some tt, w2) /\ K w2 /\ TR w2 /\
+    zombies w2 = skipn 100 (zombies w1) /\ live w2 = live w1 /\
+    waits (out w2) = rev (firstn 100 (zombies w1)) ++ waits (out w1) /\
+    post_reap w2 = (Some tt, w3) /\ K w3 /\ TR w3 /\
+    do_pass o w = (Some tt, w3).
+Proof.
+  intros HK HT.
+  destruct (pre_reap_kt o w HK HT Logic.I) as ([] & w1 & E1 & K1 & T1).
+  destruct (reap_service U pconfs 100 w1 K1 T1) as (w2 & E2 & K2 & T2 & Z2 & L2 & W2).
+  destruct (post_reap_kt w2 K2 T2 Logic.I) as ([] & w3 & E3 & K3 & T3).
+  exists w1, w2, w3. repeat (split; [assumption|]).
+  rewrite do_pass_split. unfold bind. rewrite E1. unfold reap_all. rewrite E2. exact E3.
+Qed.
+
+(* ... in particular at every boundary of every run *)
+Theorem run_reap_point ops o :
+  let w := run ops in
+  exists w1 w2 w3,
+    pre_reap o w = (Some tt, w1) /\ reap_all w1 = (Some tt, w2) /\ post_reap w2 = (Some tt, w3) /\
+    do_pass o w = (Some tt, w3) /\
+    zombies w2 = skipn 100 (zombies w1) /\ live w2 = live w1 /\
+    waits (out w2) = rev (firstn 100 (zombies w1)) ++ waits (out w1).
+Proof.
+  cbv zeta. destruct (track_run U pconfs gconfs ops) as [HK HT].
+  destruct (pass_reap_point o _ HK HT) as (w1 & w2 & w3 & H).
+  exists w1, w2, w3. tauto.
+Qed.
+
+(* no death stays unnoticed: when at most 100 children are dead at the reap point,
+   right after it no zombie is left, and every process that (still) has a pid has a live child *)
+Theorem reap_point_all_noticed o w :
+  K w -> TR w ->
+  exists w1 w2,
+    pre_reap o w = (Some tt, w1) /\ reap_all w1 = (Some tt, w2) /\
+    ((length (zombies w1) <= 100)%nat ->
+       zombies w2 = [] /\
+       waits (out w2) = rev (zombies w1) ++ waits (out w1) /\
+       forall j, pid (procs w2 j) <> 0 -> In (pid (procs w2 j)) (live w2)).
+Proof.
+  intros HK HT.
+  destruct (pass_reap_point o w HK HT) as (w1 & w2 & w3 & E1 & K1 & T1 & E2 & K2 & T2 & Z2 & L2 & W2 & _).
+  exists w1, w2. split; [exact E1 | split; [exact E2|]]. intros Hlen.
+  assert (Ez : zombies w2 = []) by (rewrite Z2; apply skipn_all2; exact Hlen).
+  split; [exact Ez | split].
+  - rewrite W2, firstn_all2 by exact Hlen. reflexivity.
+  - intros j Hj. destruct T2 as [HG HT1]. specialize (HT1 j Hj).
+    assert (Hk : In (pid (procs w2 j)) (map fst (pidhist w2))) by (apply in_map_iff; exists (pid (procs w2 j), j); auto).
+    apply (g_B _ HG) in Hk. unfold kern in Hk. rewrite Ez in Hk. cbn in Hk. rewrite app_nil_r in Hk. exact Hk.
+Qed.
+
+
+Theorem run_all_noticed ops o :
+  let w := run ops in
+  exists w1 w2,
+    pre_reap o w = (Some tt, w1) /\ reap_all w1 = (Some tt, w2) /\
+    ((length (zombies w1) <= 100)%nat ->
+       zombies w2 = [] /\
+       waits (out w2) = rev (zombies w1) ++ waits (out w1) /\
+       forall j, pid (procs w2 j) <> 0 -> In (pid (procs w2 j)) (live w2)).
+Proof. cbv zeta. destruct (track_run U pconfs gconfs ops) as [HK HT]. exact (reap_point_all_noticed o _ HK HT). Qed.
+
+(* "restarted according to its policy": whatever the history, a process found EXITED by the next
+   transition (daemon RUNNING) is started again iff its autorestart policy says so *)
+Theorem run_exited_restarted_by_policy ops i :
+  let w := run ops in
+  sts w i = EXITED -> mood w >= 1 ->
+  exists w', Model.transition U pconfs i w = (Some tt, w') /\
+    ((exists l x e, out w' = l ++ EState i EXITED STARTING x e :: out w) <->
+     should_restart (Model.cf pconfs i) (exitstatus (procs w i)) = true).
+Proof.
+  cbv zeta. intros Hs Hm. destruct (track_run U pconfs gconfs ops) as [HK _].
+  assert (Hp : pid (procs (run ops) i) = 0) by (apply K_pid_dead; [exact HK | rewrite Hs; reflexivity]).
+  destruct (autorestart_decision U pconfs _ i Hs Hp Hm) as (w' & E & _ & _ & _ & H).
+  exists w'. split; [exact E | exact H].
+Qed.
+
+(* "and stoppable": whatever the history, a stop request for a process that is RUNNING or STARTING
+   announces STOPPING and sends the configured stop signal to its own child (or its group) *)
+Theorem run_still_stoppable ops i :
+  let w := run ops in
+  sts w i = RUNNING \/ sts w i = STARTING ->
+  exists b w', Model.stop U pconfs i w = (Some b, w') /\
+    let pd := pid (procs w i) in
+    let tg := kill_target (Model.cf pconfs i) (sts w i) pd in
+    Z.abs tg = pd /\
+    exists r, (r = 0 \/ r = 1 \/ r = 2) /\ b = (r =? 2) /\
+      out w' = (if r =? 2 then [EState i STOPPING UNKNOWN 0 true] else []) ++
+               EKill tg (c_stopsignal (Model.cf pconfs i)) r :: EState i (sts w i) STOPPING pd true :: out w /\
+      sts w' i = (if r =? 2 then UNKNOWN else STOPPING).
+Proof.
+  cbv zeta. intros Hs. destruct (track_run U pconfs gconfs ops) as [HK _].
+  assert (Hp : pid (procs (run ops) i) > 0).
+  { destruct (k_pi _ HK i) as (_ & _ & c & _).
+    assert (pid (procs (run ops) i) <> 0) by (apply c; destruct Hs as [-> | ->]; reflexivity).
+    destruct (Z_lt_le_dec 0 (pid (procs (run ops) i))) as [|Hle]; [lia|].
+    pose proof (c02_pid_has_entry U pconfs gconfs ops i H) as Hin.
+    destruct (k_hist _ HK _ _ Hin). lia. }
+  destruct (stop_sends_stopsignal_first U pconfs _ i Hs Hp) as (b & w' & E & _ & H).
+  cbv zeta in H. destruct H as (H1 & _ & r & Hr & Hb & Ho & Hst & _).
+  exists b, w'. split; [exact E|]. split; [exact H1|]. exists r. auto.
+Qed.
+
+End Pass.
